@@ -962,6 +962,234 @@ struct CallerEnv {
     pipes: Vec<Option<(usize, PipeStream<u32>)>>,
 }
 
+/// A task without a thread of its own: its waker polls it then and there, on whatever thread called wake (the Waker contract
+/// allows it; single-threaded and "run inline" executors do it). A library that calls a waker with one of its own locks held
+/// deadlocks against such a task.
+struct InlineTask {
+    w: Arc<World>,
+    op: OpId,
+    kind: Kind,
+    st: Sh<InlineSt<FutH>>,
+}
+
+struct InlineSt<T> {
+    inner: Option<T>,
+    polling: bool,
+    notified: bool,
+    done: bool,
+}
+
+impl ArcWake for InlineTask {
+    fn wake_by_ref(a: &Arc<Self>) {
+        InlineTask::run(a, true);
+    }
+}
+
+impl InlineTask {
+    fn run(a: &Arc<Self>, from_waker: bool) {
+        let go = a.st.with(|s| {
+            if s.done {
+                false
+            } else if s.polling {
+                s.notified = true;
+                false
+            } else {
+                s.polling = true;
+                true
+            }
+        });
+        if !go {
+            return;
+        }
+        loop {
+            let mut f = match a.st.with(|s| s.inner.take()) {
+                Some(f) => f,
+                None => {
+                    a.st.with(|s| s.polling = false);
+                    return;
+                }
+            };
+            let wk = waker(a.clone());
+            let mut cx = Context::from_waker(&wk);
+            if from_waker {
+                a.w.with(|i| i.stats.inline_polls += 1);
+            }
+            a.w.hist(|| format!("inline task of #{} polled{}", a.op, if from_waker { " from inside a wake-up" } else { "" }));
+            let r = {
+                let mut sf = SlotFuture { w: &a.w, op: a.op, kind: a.kind, fut: &mut f };
+                Pin::new(&mut sf).poll(&mut cx)
+            };
+            match r {
+                Poll::Ready(r) => {
+                    check_future_result(&a.w, a.op, r);
+                    a.w.with(|i| {
+                        i.ops[a.op].fut_dropped = true;
+                        for t in i.inline_futs.iter_mut() {
+                            if t.0 == a.op {
+                                t.1 = true;
+                            }
+                        }
+                    });
+                    a.st.with(|s| {
+                        s.done = true;
+                        s.polling = false;
+                    });
+                    drop(f);
+                    return;
+                }
+                Poll::Pending => {
+                    let again = a.st.with(|s| {
+                        s.inner = Some(f);
+                        if s.notified {
+                            s.notified = false;
+                            true
+                        } else {
+                            s.polling = false;
+                            false
+                        }
+                    });
+                    if !again {
+                        return;
+                    }
+                }
+            }
+        }
+    }
+}
+
+/// The inline consumer of a pipe's output stream
+struct InlineConsumer {
+    w: Arc<World>,
+    s: usize,
+    drop_on_wake: bool,
+    st: Sh<InlineSt<PipeStream<u32>>>,
+}
+
+impl ArcWake for InlineConsumer {
+    fn wake_by_ref(a: &Arc<Self>) {
+        InlineConsumer::run(a, true);
+    }
+}
+
+impl InlineConsumer {
+    fn finished(&self) {
+        self.w.with(|i| {
+            for t in i.inline_consumers.iter_mut() {
+                if t.0 == self.s {
+                    t.1 = true;
+                }
+            }
+        });
+        self.st.with(|s| {
+            s.done = true;
+            s.polling = false;
+        });
+    }
+
+    fn run(a: &Arc<Self>, from_waker: bool) {
+        let go = a.st.with(|s| {
+            if s.done {
+                false
+            } else if s.polling {
+                s.notified = true;
+                false
+            } else {
+                s.polling = true;
+                true
+            }
+        });
+        if !go {
+            return;
+        }
+        if from_waker && a.drop_on_wake {
+            // a cancelled task: the wake-up tears it down, and the output stream with it
+            if let Some(out) = a.st.with(|s| s.inner.take()) {
+                a.w.with(|i| {
+                    i.streams[a.s].out_dropped = true;
+                    if !i.streams[a.s].closed {
+                        i.stats.pipe_dropped_open += 1;
+                    }
+                });
+                a.w.hist(|| format!("inline consumer of s{}: its wake-up drops the output stream", a.s));
+                a.finished();
+                drop(out);
+            }
+            return;
+        }
+        loop {
+            let mut out = match a.st.with(|s| s.inner.take()) {
+                Some(o) => o,
+                None => {
+                    a.st.with(|s| s.polling = false);
+                    return;
+                }
+            };
+            let wk = waker(a.clone());
+            let mut cx = Context::from_waker(&wk);
+            if from_waker {
+                a.w.with(|i| i.stats.inline_polls += 1);
+            }
+            let r = Pin::new(&mut out).poll_next(&mut cx);
+            match r {
+                Poll::Ready(v) => {
+                    record_pipe_output(&a.w, a.s, v);
+                    if v.is_none() {
+                        a.finished();
+                        drop(out);
+                        return;
+                    }
+                    a.st.with(|s| s.inner = Some(out));
+                    // keep reading
+                }
+                Poll::Pending => {
+                    let again = a.st.with(|s| {
+                        s.inner = Some(out);
+                        if s.notified {
+                            s.notified = false;
+                            true
+                        } else {
+                            s.polling = false;
+                            false
+                        }
+                    });
+                    if !again {
+                        return;
+                    }
+                }
+            }
+        }
+    }
+}
+
+/// What the consumer of a pipe got from a poll of the output stream
+fn record_pipe_output(w: &Arc<World>, s: usize, r: Option<u32>) {
+    w.hist(|| format!("pipe s{} output {:?}", s, r));
+    let mut bad = None;
+    w.with(|i| {
+        let st = &mut i.streams[s];
+        match r {
+            Some(v) => {
+                let n = st.outputs.len();
+                // exactly f(input n)
+                let expect = st.pushed.get(n).map(|x| x.wrapping_mul(3).wrapping_add(1));
+                if expect != Some(v) {
+                    bad = Some(format!("output #{} of pipe s{} is {} but input #{} maps to {:?}", n, s, v, n, expect));
+                }
+                st.outputs.push(v);
+            }
+            None => {
+                st.out_ended = true;
+                if !st.closed || st.outputs.len() != st.pushed.len() {
+                    bad = Some(format!("pipe s{} ended after {} outputs; input closed={} with {} items", s, st.outputs.len(), st.closed, st.pushed.len()));
+                }
+            }
+        }
+    });
+    if let Some(d) = bad {
+        w.fail("C12", "wrong-output", None, None, d);
+    }
+}
+
 struct SlotFuture<'a> {
     w: &'a Arc<World>,
     op: OpId,
@@ -1003,11 +1231,11 @@ impl CallerEnv {
             Op::TrySync { .. } => "C09",
             Op::FutDesync { .. } | Op::After { .. } => "C07",
             Op::FutSync { .. } => "C08",
-            Op::Await { slot } | Op::SyncWait { slot } | Op::PollOnce { slot } | Op::DropFut { slot } | Op::Detach { slot } => slot_kind(slot),
+            Op::Await { slot } | Op::SyncWait { slot } | Op::PollOnce { slot } | Op::DropFut { slot } | Op::Detach { slot } | Op::AwaitInline { slot } => slot_kind(slot),
             Op::Release { .. } => "C05",
             Op::Suspend { .. } | Op::AwaitSuspend { .. } | Op::Resume { .. } | Op::DropResumer { .. } => "C13",
             Op::PipeIn { .. } => "C11",
-            Op::Pipe { .. } | Op::Consume { .. } => "C12",
+            Op::Pipe { .. } | Op::Consume { .. } | Op::ConsumeInline { .. } => "C12",
             Op::DropPipe { .. } => "C16",
             Op::Attempt { .. } => "C15",
             Op::OpenGate { .. } | Op::Rewake { .. } => "C06",
@@ -1452,32 +1680,24 @@ impl CallerEnv {
                         } else {
                             block_on(&mut nx)
                         };
-                        w.hist(|| format!("pipe s{} output {:?}", s, r));
-                        let mut bad = None;
-                        w.with(|i| {
-                            let st = &mut i.streams[s];
-                            match r {
-                                Some(v) => {
-                                    let n = st.outputs.len();
-                                    // exactly f(input n)
-                                    let expect = st.pushed.get(n).map(|x| x.wrapping_mul(3).wrapping_add(1));
-                                    if expect != Some(v) {
-                                        bad = Some(format!("output #{} of pipe s{} is {} but input #{} maps to {:?}", n, s, v, n, expect));
-                                    }
-                                    st.outputs.push(v);
-                                }
-                                None => {
-                                    st.out_ended = true;
-                                    if !st.closed || st.outputs.len() != st.pushed.len() {
-                                        bad = Some(format!("pipe s{} ended after {} outputs; input closed={} with {} items", s, st.outputs.len(), st.closed, st.pushed.len()));
-                                    }
-                                }
-                            }
-                        });
-                        if let Some(d) = bad {
-                            w.fail("C12", "wrong-output", None, None, d);
-                        }
+                        record_pipe_output(&w, s, r);
                     }
+                }
+            }
+            Op::AwaitInline { slot } => {
+                if let Some(Slot::Fut { op, kind, fut, .. }) = self.slots[*slot as usize].take() {
+                    w.with(|i| i.inline_futs.push((op, false)));
+                    w.hist(|| format!("future of #{} handed to an inline task", op));
+                    let task = Arc::new(InlineTask { w: w.clone(), op, kind, st: Sh::new(InlineSt { inner: Some(fut), polling: false, notified: false, done: false }) });
+                    InlineTask::run(&task, false);
+                }
+            }
+            Op::ConsumeInline { slot, drop_on_wake } => {
+                if let Some((s, out)) = self.pipes[*slot as usize].take() {
+                    w.with(|i| i.inline_consumers.push((s, false)));
+                    w.hist(|| format!("output of pipe s{} handed to an inline consumer", s));
+                    let task = Arc::new(InlineConsumer { w: w.clone(), s, drop_on_wake: *drop_on_wake, st: Sh::new(InlineSt { inner: Some(out), polling: false, notified: false, done: false }) });
+                    InlineConsumer::run(&task, false);
                 }
             }
             Op::DropPipe { slot } => {
@@ -1970,6 +2190,8 @@ pub fn run_case(case: &Case, opts: &RunOpts) -> Outcome {
         phase: 0,
         final_stage: false,
         final_stage_clock: 0,
+        inline_futs: vec![],
+        inline_consumers: vec![],
         panic_case: case_has_panic(&case),
         panic_clock: 0,
         quiet_panic_variant: case_has_panic(&case) && case.phases.len() == 1,
